@@ -23,17 +23,19 @@ const (
 )
 
 type taintAn struct {
-	c        *Ctx
-	fns      []*ssa.Function
-	inScope  map[*ssa.Function]bool
-	param    map[*ssa.Function][]taintBits
-	ret      map[*ssa.Function][]taintBits
-	field    map[*types.Var]taintBits
-	heldType map[string]bool // map/slice types into which owned objects were stored
-	free     map[*ssa.FreeVar]taintBits
-	why      map[ssa.Value]string
-	changed  bool
-	srcNote  map[*ssa.Function]map[int]string
+	c         *Ctx
+	fns       []*ssa.Function
+	inScope   map[*ssa.Function]bool
+	param     map[*ssa.Function][]taintBits
+	ret       map[*ssa.Function][]taintBits
+	field     map[*types.Var]taintBits
+	heldType  map[string]bool // map/slice types into which owned objects were stored
+	free      map[*ssa.FreeVar]taintBits
+	why       map[ssa.Value]string
+	changed   bool
+	srcNote   map[*ssa.Function]map[int]string
+	srcCall   func(call *ssa.Call) bool // additional sources: results of these calls are owned elsewhere
+	zeroSetOK bool                      // Set(0)/SetInt64(0) on an owned number writes no digit: tolerated
 }
 
 type TaintSource struct {
@@ -43,8 +45,20 @@ type TaintSource struct {
 }
 
 func (c *Ctx) InputsReadOnly(ob *core.Obligation, reachKey string, roots []*ssa.Function, sources []TaintSource, storeIface *types.Named) {
+	c.inputsReadOnly(ob, "readonly", reachKey, roots, sources, storeIface, nil, false)
+}
+
+// EvaluatedNumbersReadOnly: a number obtained by evaluating an expression is a shallow copy
+// of the value held by a variable (it shares its digits): it is never the receiver of an
+// in-place operation (other than a reset to zero, which writes no digit), nor is an amount
+// that was queued as sender / receiver.
+func (c *Ctx) EvaluatedNumbersReadOnly(ob *core.Obligation, reachKey string, roots []*ssa.Function, isEval func(call *ssa.Call) bool) {
+	c.inputsReadOnly(ob, "eval-readonly", reachKey, roots, nil, nil, isEval, true)
+}
+
+func (c *Ctx) inputsReadOnly(ob *core.Obligation, keyPrefix, reachKey string, roots []*ssa.Function, sources []TaintSource, storeIface *types.Named, srcCall func(*ssa.Call) bool, zeroSetOK bool) {
 	fns, reach := c.reachableModule(reachKey, roots)
-	a := &taintAn{c: c, fns: fns, inScope: map[*ssa.Function]bool{}, param: map[*ssa.Function][]taintBits{}, ret: map[*ssa.Function][]taintBits{},
+	a := &taintAn{c: c, srcCall: srcCall, zeroSetOK: zeroSetOK, fns: fns, inScope: map[*ssa.Function]bool{}, param: map[*ssa.Function][]taintBits{}, ret: map[*ssa.Function][]taintBits{},
 		field: map[*types.Var]taintBits{}, heldType: map[string]bool{}, free: map[*ssa.FreeVar]taintBits{}}
 	for _, f := range fns {
 		a.inScope[f] = true
@@ -80,7 +94,7 @@ func (c *Ctx) InputsReadOnly(ob *core.Obligation, reachKey string, roots []*ssa.
 		c.Touch(fn)
 		var findings []taintFinding
 		a.flow(fn, storeI, &findings)
-		key := "readonly:" + core.SSAName(fn)
+		key := keyPrefix + ":" + core.SSAName(fn)
 		if len(findings) == 0 {
 			ob.Pass(key, c.P.Pos(fn.Pos()), "no write to caller-owned or store-owned data")
 			continue
@@ -326,6 +340,12 @@ func (a *taintAn) flow(fn *ssa.Function, storeI *types.Interface, out *[]taintFi
 						continue
 					}
 					obj := core.CalleeObj(call)
+					if a.srcCall != nil && v != nil {
+						if cl, ok := in.(*ssa.Call); ok && a.srcCall(cl) {
+							progress = set(v, tOwn) || progress
+							continue
+						}
+					}
 					// source: Store methods
 					if call.IsInvoke() && storeI != nil && v != nil {
 						if types.Implements(call.Value.Type(), storeI) && types.Identical(call.Value.Type().Underlying(), storeI) {
@@ -342,7 +362,7 @@ func (a *taintAn) flow(fn *ssa.Function, storeI *types.Interface, out *[]taintFi
 							}
 							progress = set(v, rt) || progress
 						}
-						if out != nil && bigMutator(m) && get(args[0])&tOwn != 0 {
+						if out != nil && bigMutator(m) && get(args[0])&tOwn != 0 && !(a.zeroSetOK && isZeroSet(m, args)) {
 							report(x.Pos(), "in-place big."+tn+"."+m+" on a number that belongs to the caller / was returned by the store / is part of the shared AST: the input is mutated")
 						}
 						continue
@@ -474,4 +494,18 @@ func addrRoot(v ssa.Value) ssa.Value {
 		}
 	}
 	return v
+}
+
+// isZeroSet: z.Set(<zero>) / z.SetInt64(0): the receiver's digits are not written.
+func isZeroSet(m string, args []ssa.Value) bool {
+	switch m {
+	case "Set":
+		return len(args) > 1 && isZeroBig(args[1])
+	case "SetInt64", "SetUint64":
+		if len(args) > 1 {
+			k, ok := core.ConstInt(core.Strip(args[1]))
+			return ok && k == 0
+		}
+	}
+	return false
 }
